@@ -1,6 +1,6 @@
 package client
 
-// Replay of the known finding client.mangleContentType#post.C11:describes~2 (property C11:
+// Replay of the known finding client.mangleContentType#post.C11:describesurlencoded~2 (property C11:
 // "the Content-Type header describes what was sent"). An operation whose chosen media type is
 // application/x-www-form-urlencoded and which carries a file parameter is sent as a multipart
 // document (isMultipart is true whenever there are files), but the header announces
